@@ -1,5 +1,5 @@
 """Property -> rule instances (DESIGN section 4). Each entry is a function facts -> [RuleResult]."""
-from . import dim, atomic, tag, pair, canon, deleg, guard, table, wire, flow, sibling
+from . import dim, atomic, tag, pair, canon, deleg, guard, table, wire, flow, sibling, algo_rules
 
 ALGO_FILES = {
     "C09": ("src/algo/mod.rs",),
@@ -324,6 +324,26 @@ PROPS["C03"]["decides"] += "; the edge map is never updated conditionally on an 
                            "Incoming mirror exactly under a != b"
 PROPS["C04"]["rules"].append(sub(_mx_order, lambda f, s: True, 2))
 PROPS["C04"]["decides"] += "; remove_node releases the node id only after the loop that clears its row and column"
+
+_ALGO = [
+    ("C12", algo_rules.mst_positions, 8, "Kruskal/Prim emit edge endpoints looked up in node_map (stream positions), never raw to_index values"),
+    ("C20", algo_rules.simple_paths, 2, "all_simple_paths pushes a child onto the path only under child != to"),
+    ("C16", algo_rules.lowlink, 3, "articulation_points' low-link updates use disc[v] across an edge to a visited non-parent vertex and low[child] after a finished child"),
+    ("C10", algo_rules.kshortest_unfiltered, 2, "k_shortest_path relaxes every out-edge (no endpoint / visited filter on the heap push)"),
+    ("C19", algo_rules.labeling, 2, "into_labeling stores the representative found for each element back into the labeling"),
+    ("C09", algo_rules.labeling, 2, "connected_components' labeling (UnionFind::into_labeling) stores the representative found for each element"),
+    ("C14", algo_rules.map_len_as_key, 2, "OrderMap never uses a map's len() as a fresh key of that map"),
+    ("C02", algo_rules.freelist_backlinks, 3, "every push onto the doubly linked free-node list writes the old head's back link"),
+    ("C17", algo_rules.freelist_backlinks, 3, "link_edges rebuilds the free-node list doubly linked (back links written)"),
+    ("C15", algo_rules.residual_bfs, 3, "ford_fulkerson's residual BFS over out+in edges moves to other_endpoint(edge, vertex)"),
+]
+for _pid, _fn, _floor, _txt in _ALGO:
+    _r = sub(_cached("algo." + _fn.__name__, _fn), lambda f, s: True, _floor)
+    if _pid == "C17":
+        _r = _serde_only(_r)
+    PROPS[_pid]["rules"].append(_r)
+    PROPS[_pid]["decides"] += "; " + _txt
+PROPS["C18"]["decides"] += "; node statements print to_index(node.id())"
 
 WITNESSES = {
     "C01": ["frozen_no_add_node", "graph_nodes_private"],
